@@ -490,11 +490,16 @@ example : parseNet decCodec (fun _ => 7) lossyNet.par (exportNet decCodec lossyN
 -- the model reads from the sample network's own export
 example : unaryCodec.ellKnown "wgs84" = true := rfl
 example : (sampleNet.par).Guards unaryCodec := by unfold Params.Guards; decide
-example : sampleNet.WF unaryCodec (fun _ => True) (fun _ => True) := by decide
+-- (`Net.WF` asks `rd (fmtCov x) = some x` of the covariance elements — true for every number of the unary codec; the rest is decided)
+example : sampleNet.WF unaryCodec (fun _ => True) (fun _ => True) :=
+  (Net.WFc.congr_cov (fun x => ⟨fun _ => by simp [Codec.CovRep, unaryCodec], fun _ => trivial⟩) _).mp
+    (by decide : sampleNet.WFc unaryCodec (fun _ => True) (fun _ => True) (fun _ => True))
 -- 6848bc2a: B has observed coordinates (4, 5) in the `gps` cluster; after the refinement pass B is at (9, 12), the refined
 -- network is still well-formed (the cluster keeps (4, 5)), and reading its export gives B = (9, 12) back
-example : (refineNet (fun _ a d => a + d) 0 [5, 7, 9] [.X "B", .Y "B", .Z "B"] sampleNet).WF unaryCodec (fun _ => True) (fun _ => False) := by
-  decide
+example : (refineNet (fun _ a d => a + d) 0 [5, 7, 9] [.X "B", .Y "B", .Z "B"] sampleNet).WF unaryCodec (fun _ => True) (fun _ => False) :=
+  (Net.WFc.congr_cov (fun x => ⟨fun _ => by simp [Codec.CovRep, unaryCodec], fun _ => trivial⟩) _).mp
+    (by decide : (refineNet (fun _ a d => a + d) 0 [5, 7, 9] [.X "B", .Y "B", .Z "B"] sampleNet).WFc unaryCodec
+      (fun _ => True) (fun _ => True) (fun _ => False))
 set_option maxRecDepth 100000 in
 example : ((parseNet unaryCodec (fun _ => 7) sampleNet.par
       (exportNet unaryCodec (refineNet (fun _ a d => a + d) 0 [5, 7, 9] [.X "B", .Y "B", .Z "B"] sampleNet))).toOption.map
